@@ -48,6 +48,7 @@ import (
 	"go/ast"
 	"go/parser"
 	"go/token"
+	"math/rand"
 	"os"
 	"os/exec"
 	"path/filepath"
@@ -193,9 +194,42 @@ func main() {
 
 // build draws grammar i with the given receiver name; the structure does not
 // depend on the name.
+// unicodeClassGrammar is grammar 0 of every run: one rule per Unicode class name that the front-end
+// accepts (all of them: the list is finite, so it is enumerated, not sampled), alone and inside an
+// ignore-case / inverted class. Every class must resolve when the package initialises, under every flag set.
+func unicodeClassGrammar(r *rand.Rand, pkg string, av pvpeg.Avoid) *past.Grammar {
+	g := past.NewGrammar(past.Pos{})
+	g.Init = past.NewCodeBlock(past.Pos{}, "{\npackage "+pkg+"\n}")
+	id := func(n string) *past.Identifier { return past.NewIdentifier(past.Pos{}, n) }
+	first := past.NewRule(past.Pos{}, id("AnyClass"))
+	ch := past.NewChoiceExpr(past.Pos{})
+	first.Expr = ch
+	g.Rules = append(g.Rules, first)
+	for k, nm := range pvpeg.UnicodeClasses {
+		items := []pvpeg.ClassItem{{Class: nm, Short: len(nm) == 1 && k%2 == 0}}
+		if k%3 == 0 {
+			items = append(items, pvpeg.ClassItem{Lo: 'a', Hi: 'a'})
+		}
+		rule := past.NewRule(past.Pos{}, id(fmt.Sprintf("U%03d", k)))
+		rule.Expr = pvpeg.BuildClass(r, items, k%7 == 3, false, av)
+		g.Rules = append(g.Rules, rule)
+		ref := past.NewRuleRefExpr(past.Pos{})
+		ref.Name = id(rule.Name.Val)
+		ch.Alternatives = append(ch.Alternatives, ref)
+	}
+	return g
+}
+
 func build(seed int64, i int, av pvpeg.Avoid, recv string) (*past.Grammar, string, []string, pvpeg.Cfg) {
 	r := pvpeg.SubRand(seed, 0, i)
 	cfg := pvpeg.Cfg{WellFormed: true, Compilable: true, UniqueLabels: true, Avoid: av, Recv: recv, Pkg: fmt.Sprintf("pg%04d", i)}
+	if i == 0 {
+		cfg.NoThrow, cfg.NoState = true, true
+		g := unicodeClassGrammar(r, cfg.Pkg, av)
+		st := pvpeg.Styles[0]
+		st.Avoid = av
+		return g, pvpeg.Print(g, r, st), []string{"a", "Z", "é", "ꀀ", "0", " ", ""}, cfg
+	}
 	cfg.NoThrow = r.Intn(2) == 0
 	cfg.NoState = r.Intn(3) == 0
 	if r.Intn(5) == 0 {
